@@ -162,7 +162,7 @@ func sizeClass(n int) string {
 
 func gen(rng *h.Rng, tier string, emit func(string)) {
 	st := h.Stats{}
-	nsets, nleaf, npart, nstate := 700, 4000, 1500, 60
+	nsets, nleaf, npart, nstate := 350, 4000, 1500, 60
 	if tier == "thorough" {
 		nsets, nleaf, npart, nstate = 12000, 60000, 20000, 600
 	}
